@@ -5,3 +5,4 @@ import Bmc.Proofs.C03
 #print axioms Bmc.Proofs.C03.message_is_the_command
 #print axioms Bmc.Proofs.C03.iv_is_own_draw
 #print axioms Bmc.Proofs.C03.ith_datagram_uses_ith_draw
+#print axioms Bmc.Proofs.C03.wrapper_opens
